@@ -72,6 +72,25 @@ func runC13(r *rt.Runner) {
 					}
 				}
 			}
+			// one-shot faults: the reader reports an error once, with no bytes,
+			// and would deliver the rest of the file if asked again
+			oneShot := 0
+			for off := 0; off <= len(it.data); off++ {
+				fr := &mon.FaultReader{Data: it.data, K: off, OneShot: true}
+				if rng.IntN(4) == 0 {
+					fr.Chunks = randChunks(rng)
+				}
+				_, err := runEntry(env, kind, fr)
+				c.Eval()
+				if fr.Delivered {
+					oneShot++
+					if err == nil {
+						c.Violation(fmt.Sprintf("one-shot-read-fault-swallowed|%s", kind),
+							fmt.Sprintf("%s: the reader reported an error once after %d of %d bytes (no bytes with it; later calls would have continued), but the call returned a nil error", kind, off, len(it.data)), "")
+					}
+				}
+			}
+			c.Runner().Count("one-shot read faults delivered to the library", int64(oneShot))
 			if kind == kType1 {
 				for _, fs := range []int{1, 2} {
 					sr := &mon.SeekPlanReader{PlanReader: mon.PlanReader{Data: it.data}, FailSeek: fs}
